@@ -34,7 +34,7 @@ def section_grid(p, ngx, ngy):
 
 def k0_oracle(p, d):
     lam = d['lam']
-    F, SF = clt.ABD6(lam['stack'], lam['plyts'], lam['laminaprops'], lam['offset'])
+    F, SF = clt.ABD6(lam['stack'], lam['plyts'], lam['laminaprops'], lam['offset'], force_ortho=bool(lam.get('force_ortho')))
     ngx = max(p.m, 4) + 1
     ngy = max(p.n, 4) + 2
     size = 3 * p.m * p.n
